@@ -90,6 +90,17 @@ def gen_descr(rng, aliases, checks, modes):
         d['environment'] = {'X': '1'}
     if rng.random() < 0.3:
         d['priority'] = rng.choice([0, 3])
+    # commands around the executable: plain strings for all ranks and per-rank dictionaries {rank: [commands]}
+    for k in ('pre_exec', 'post_exec', 'pre_launch', 'post_launch'):
+        if rng.random() < 0.3:
+            v = ['module load x', 'echo "a b"'][:rng.randint(1, 2)]
+            if k in ('pre_exec', 'post_exec') and rng.random() < 0.6:
+                v = v + [{'0': 'echo rank 0', '1': ['echo r1', 'true']}]
+            d[k] = v
+    if rng.random() < 0.2:
+        d['input_staging'] = [rng.choice(['in.dat', {'source': 'client:///in.dat', 'target': 'task:///in.dat', 'action': 'Transfer'}])]
+    if rng.random() < 0.2:
+        d['tags'] = {'colocate': rng.choice([0, 'a']), 'exclusive': True}
     return d
 
 
@@ -121,7 +132,8 @@ def monitor_descr(rp, d, td, err, aliases):
                 return ('replacement-changed-without-alias:%s' % new, '%r -> %r' % (inp[new], td[new]))
     if inp['use_mpi'] is not None and td['use_mpi'] != inp['use_mpi']:
         return ('explicit-use_mpi-overwritten', 'use_mpi=%r became %r (ranks %r)' % (inp['use_mpi'], td['use_mpi'], td['ranks']))
-    for k in ('arguments', 'environment', 'priority', 'executable', 'function', 'code', 'command'):
+    for k in ('arguments', 'environment', 'priority', 'executable', 'function', 'code', 'command',
+              'pre_exec', 'post_exec', 'pre_launch', 'post_launch', 'input_staging', 'tags'):
         if td[k] != inp[k]:
             return ('attribute-lost:%s' % k, '%r -> %r' % (inp[k], td[k]))
     before = copy.deepcopy(td.as_dict())
